@@ -56,11 +56,14 @@ def run(ctx):
     total = len(cases)
     # candidates for the paste path (tight options, scale+translation) are all kept; the rest is sampled (soundness of paste_ok = False is C03's business)
     cand = [c for c in cases if c["A"][1] == 0 and c["pad"] in ([], [0]) and c["align"] == [] and abs(c["A"][0]) == abs(c["A"][4]) and abs(c["A"][0]) % 960 == 0]
-    rest = [c for c in cases if c not in cand] if len(cases) < 50000 else None
-    if rest is None:
-        cs = set(json.dumps(c, sort_keys=True) for c in cand)
-        rest = [c for c in cases if json.dumps(c, sort_keys=True) not in cs]
-    cases = ctx.subsample(cand, 9000 if q else 120000) + ctx.subsample(rest, 5000 if q else 60000)
+    # families probing the tolerances themselves (scales next to an integer, tiny shear, caller-supplied tolerances) are sampled on their own
+    def special(c):
+        return c["stol"] != [1, 1000] or c["ttol"] == [1, 5] or 0 < abs(c["A"][1]) <= 60 or 0 < abs(c["A"][3]) <= 60 or abs(c["A"][0]) % 15 != 0
+    cs = set(json.dumps(c, sort_keys=True) for c in cand)
+    spec = [c for c in cases if special(c) and json.dumps(c, sort_keys=True) not in cs]
+    ss = set(json.dumps(c, sort_keys=True) for c in spec)
+    rest = [c for c in cases if json.dumps(c, sort_keys=True) not in cs and json.dumps(c, sort_keys=True) not in ss]
+    cases = ctx.subsample(cand, 9000 if q else 120000) + ctx.subsample(spec, 3000 if q else 60000) + ctx.subsample(rest, 4000 if q else 60000)
     events = ctx.pmap(execute, cases)
     verdicts = _validate(ctx, events)
     for ev, v in zip(events, verdicts):
